@@ -254,6 +254,25 @@ fn observe(what: &str, h: &mut Hist, desc: &str) -> Result<(), String> {
             if eg.is_alive(x.id) && x.m.keys() != eg.slots(x.id) { return Err(format!("C09:add.slots {}: re-inserting {} gives {:?}, whose parameter slots are not the class's slots {:?}", desc, s, x, eg.slots(x.id))); }
             if before != snapshot(eg) { return Err(format!("C09:add.known-creates-nothing {}: re-inserting {} changed the e-graph", desc, s)); }
             if !eg.eq(&x, &h.handles[k]) { return Err(format!("C09:add.known-creates-nothing {}: re-inserting {} gives {:?}, the first insertion gave {:?}", desc, s, x, h.handles[k])); }
+            // NODE level, through OLD handles (seed C09-g): the top node of the kept term with the handles that the insertion of its
+            // child terms returned - possibly long ago: their classes may have been merged away or may have lost slots since -
+            // is represented: `lookup` finds it (and changes nothing), `add` creates nothing, both denote the kept handle
+            if !s.children.is_empty() {
+                let kids: Option<Vec<AppliedId>> = s.children.iter().map(|c| h.subs.iter().position(|t| t == c).map(|j| h.handles[j].clone())).collect();
+                if let Some(kids) = kids {
+                    let mut n = s.node.clone();
+                    for (r, i) in n.applied_id_occurrences_mut().into_iter().zip(kids) { *r = i; }
+                    let before = snapshot(eg);
+                    match eg.lookup(&n) {
+                        None => return Err(format!("C09:lookup.agrees {}: lookup of the node {:?} (the top node of the inserted term {} over the handles its children were inserted with) fails", desc, n, s)),
+                        Some(l) => if !eg.eq(&l, &h.handles[k]) { return Err(format!("C09:lookup.agrees {}: lookup of the node {:?} gives {:?}, the insertion of {} gave {:?}", desc, n, l, s, h.handles[k])); }
+                    }
+                    if before != snapshot(eg) { return Err(format!("C09:lookup.pure {}: lookup of the node {:?} changed the e-graph", desc, n)); }
+                    let x = eg.add(n.clone());
+                    if before != snapshot(eg) { return Err(format!("C09:add.known-creates-nothing {}: adding the node {:?} (top node of the inserted term {} over old handles) changed the e-graph", desc, n, s)); }
+                    if !eg.eq(&x, &h.handles[k]) { return Err(format!("C09:add.known-creates-nothing {}: adding the node {:?} gives {:?}, the insertion of {} gave {:?}", desc, n, x, s, h.handles[k])); }
+                }
+            }
             let rn = rename(&s.to_string());
             let x2 = eg.add_expr(RecExpr::<KL>::parse(&rn).unwrap());
             if before != snapshot(eg) { return Err(format!("C09:add.renaming-equivariant {}: inserting the renamed term {} changed the e-graph", desc, rn)); }
